@@ -222,6 +222,36 @@ impl LongTermCredentialClient {
         Ok(())
     }
 
+    #[cfg(rustun_verif)]
+    #[allow(clippy::type_complexity)]
+    pub fn verif_state(
+        &self,
+    ) -> (
+        u8,
+        Option<(String, String, Option<Vec<u16>>, Option<u16>, bool, bool)>,
+        Vec<TransactionId>,
+    ) {
+        let state = match &self.state {
+            LongTermCredentialState::FirstRequest => 0,
+            LongTermCredentialState::Retry(RetryCause::Unauthenticated) => 1,
+            LongTermCredentialState::Retry(RetryCause::StaleNonce) => 2,
+            LongTermCredentialState::SubsequentRequest => 3,
+        };
+        let params = self.params.as_ref().map(|p| {
+            (
+                p.realm.as_str().to_string(),
+                p.nonce.as_str().to_string(),
+                p.password_algorithms
+                    .as_ref()
+                    .map(|l| l.iter().map(|a| u16::from(a.algorithm())).collect()),
+                p.password_algorithm.as_ref().map(|a| u16::from(a.algorithm())),
+                p.integrity == Integrity::MessageIntegritySha256,
+                p.user_hash.is_some(),
+            )
+        });
+        (state, params, self.validator.verif_markers())
+    }
+
     pub fn prepare_request(
         &mut self,
         attributes: &mut StunAttributes,
